@@ -10,7 +10,7 @@
      {"ev":"Ret","err":"none"|"bn"|"own","call":i,"text":..,"dep":bool,"t0":ms,"t1":ms,
             "instr":[{"label":..,"total":d,"cnt":d,"ms":d}]}   the result (bn: the error value the node returned from call
                                 i), the clock before/after, the deltas of core_bcast_broadcast_total and of the histogram
-     {"ev":"Panic"} matches nothing.
+     {"ev":"End"}               the call has returned and everything was recorded ({"ev":"Panic"} matches nothing)
    Not logged, inferred by TLC: the map iteration order of the conversion loops (taken from the next Submit event when
    there is one, else any order), the order of the exit loop (from the sequence of voluntary_exit submissions) and the
    wrong-typed entry an exit loop stumbled over. *)
@@ -24,7 +24,15 @@ TraceInit == /\ TrInit
 TReset == IsEvent("Reset") /\ l = 1 /\ UNCHANGED vars
 
 SubmitEvs == SelectSeq(Trace, LAMBDA e : e.ev = "Submit")
-Orders == IF duty \in ListTypes /\ SubmitEvs # <<>> /\ IsPerm(SubmitEvs[1].objs) THEN {SubmitEvs[1].objs} ELSE PermSeqs(Keys)
+\* The order only matters for a list duty whose conversion succeeds.  It is the order of the Submit event when there is
+\* one.  Without a submission (the validator-index resolution failed) the order shows only in WHETHER the resolution ran,
+\* and that is decided by the first attestation (pre-electra: no, electra without index: yes) or else the same for every
+\* order: one candidate order per first element covers every outcome.
+RECURSIVE SeqOfSet(_)
+SeqOfSet(S) == IF S = {} THEN <<>> ELSE LET x == CHOOSE y \in S : TRUE IN <<x>> \o SeqOfSet(S \ {x})
+Orders == IF duty \notin ListTypes \/ WrongTyped # {} \/ Keys = {} THEN {<<>>}
+          ELSE IF SubmitEvs # <<>> /\ IsPerm(SubmitEvs[1].objs) THEN {SubmitEvs[1].objs}
+          ELSE {<<k>> \o SeqOfSet(Keys \ {k}) : k \in Keys}
 TCall == l = 2 /\ (\E p \in Orders : Call(p)) /\ Silent
 
 TNoCheck == pc = "attcheck" /\ ~NeedCheck(ord) /\ AttCheck /\ Silent
@@ -50,7 +58,8 @@ TRet == /\ IsEvent("Ret") /\ Return
         /\ \A i \in DOMAIN instr' : /\ Ev.instr[i].label = instr'[i].label /\ Ev.instr[i].ms = instr'[i].ms
                                     /\ Ev.instr[i].cnt = 1 /\ Ev.instr[i].total = 1
 
-TraceNext == TReset \/ TCall \/ TNoCheck \/ TResolve \/ TSubmit \/ TExitAbort \/ TExitDone \/ TRet
+TEnd == IsEvent("End") /\ pc = "done" /\ UNCHANGED vars
+TraceNext == TReset \/ TCall \/ TNoCheck \/ TResolve \/ TSubmit \/ TExitAbort \/ TExitDone \/ TRet \/ TEnd
 TraceSpec == TraceInit /\ [][TraceNext]_tvars
 Mark == /\ CheckInv("TypeOK", TypeOK) /\ CheckInv("NotBroadcast", NotBroadcast) /\ CheckInv("EndpointRule", EndpointRule)
         /\ CheckInv("ListRule", ListRule) /\ CheckInv("OneRule", OneRule) /\ CheckInv("EachRule", EachRule)
